@@ -263,7 +263,15 @@ class Prop:
                 op["env"] = [{"at": sites[0][0], "nth": 1, "do": "gc"}]
             ops.append(op)
         return {"prop": ID, "seed": seed,
-                "config": {"kk": kk, "vk": vk, "init": init, "listeners": listeners},
+                "config": {"kk": kk, "vk": vk, "init": init, "listeners": listeners,
+                           # a second dict next to this one (built alike, or a copy of it):
+                           # neither hears the other
+                           # extra raw notifiers, one of which unhooks others mid-notification
+                           "unhook": ({"n": 3, "at": c.randrange(6), "who": c.randrange(3),
+                                       "victims": c.sample(range(3), c.randint(1, 2))}
+                                      if c.random() < 0.25 else None),
+                           "sibling": c.choice([None, None, "plain", "copy", "deepcopy",
+                                                "pickle"])},
                 "ops": ops}
 
     # ------------------------------------------------------------------ model
@@ -389,15 +397,29 @@ class Prop:
                     rec.append((event.object, dict(event.removed), dict(event.added),
                                 type(event.removed), type(event.added)))
                 observe(td, expression.dict_items(), handler)
+        unh = None
+        if cfg.get("unhook"):
+            from ..sibling import Unhookers
+            unh = Unhookers(ID, td, cfg["unhook"], env)
+        sib = None
+        if cfg.get("sibling"):
+            from ..sibling import Sibling
+            sib = Sibling(ID, cfg["sibling"], td, lambda _n: TraitDict(dict(td)), env)
         for i, op in enumerate(trace["ops"]):
             env.begin_op(i, op)
             for _, rec in recs:
                 del rec[:]
+            if sib is not None and i % 3 == 2:
+                sib.poke(recs, i)
+            if unh is not None:
+                unh.begin_op(i)
             k = op["k"]
             before = dict(m)
             fired0 = env.fired["raise"]
             ret_m, val_exc, dict_exc = self.model_apply(m, op, kk, vk)
             ret, e = sut_dict_apply(td, op)
+            if sib is not None:
+                sib.after_main_op(k, i)
             env.end_op()
             injected = env.fired["raise"] > fired0
             if injected:
@@ -447,6 +469,8 @@ class Prop:
                 raise Violation("C06.return", "%s returned %r, dict returns %r"
                                 % (describe(op), ret, ret_m), i)
             changed = (m != before)
+            if unh is not None:
+                unh.check(changed, describe(op), i)
             shape = None
             for kind, rec in recs:
                 if changed and len(rec) != 1:
